@@ -974,3 +974,219 @@ func firstWords(s string) string {
 	}
 	return strings.Join(f, " ")
 }
+
+// ---------------------------------------------------------------------------
+// Declared types with EMBEDDED inline structs of an unexported type (reflect.StructOf cannot build
+// those): the promoted fields are fields of the outer struct like any other.
+
+type embCommon struct {
+	Key   string   `yaml:"key" aliases:"id,identifier"`
+	Tags  []string `yaml:"tags,omitempty"`
+	Count int      `yaml:"count"`
+}
+
+type EmbWithRest struct {
+	embCommon `yaml:",inline"`
+	Name      string         `yaml:"name"`
+	Rest      map[string]any `yaml:",inline"`
+}
+
+type EmbNoRest struct {
+	embCommon `yaml:",inline"`
+	Label     string `yaml:"label"`
+}
+
+type EmbNested struct {
+	Outer string         `yaml:"outer"`
+	Sub   *EmbNoRest     `yaml:"sub"`
+	Rest  map[string]any `yaml:",inline"`
+}
+
+var recEmb = ev.New("TestPropEmbeddedInlineStructs", "three declared target types that embed an unexported struct type tagged `,inline` (with and without a catch-all map, and nested behind a pointer) x documents over any subset of the promoted fields' keys, their aliases, the outer fields' keys and unknown keys, well-typed values; oracle 1 = the stated rule computed by hand (field <- its key, else its first present alias; leftovers to the catch-all, in order), oracle 2 (no alias key in the document) = yaml.v3's own decoder into the same type; non-trivial = a promoted field is set and an unknown key is present; distinct by document")
+
+func TestPropEmbeddedInlineStructs(t *testing.T) {
+	ev.Check(t, 3000, 100000, func(t *rapid.T) {
+		genDoc := func(label string, outerKeys []string) (*ordered.MapSA, map[string]any) {
+			m := ordered.NewMap[string, any](0)
+			vals := map[string]any{}
+			keys := append([]string{"key", "id", "identifier", "tags", "count", "zz", "other"}, outerKeys...)
+			keys = rapid.Permutation(keys).Draw(t, label+"order")
+			for _, k := range keys {
+				if !rapid.Bool().Draw(t, label+"has") {
+					continue
+				}
+				var v any
+				switch k {
+				case "tags":
+					v = []any{"a", rapid.SampledFrom([]string{"b", "c"}).Draw(t, label+"tag")}
+				case "count":
+					v = rapid.IntRange(-3, 40).Draw(t, label+"count")
+				case "zz":
+					v = ordered.MapFromItems(ordered.TupleSA{Key: "n", Value: 1})
+				default:
+					v = k + "-" + rapid.SampledFrom([]string{"x", "y"}).Draw(t, label+"v")
+				}
+				m.Set(k, v)
+				vals[k] = v
+			}
+			return m, vals
+		}
+		expectCommon := func(vals map[string]any, consumed map[string]bool) embCommon {
+			var c embCommon
+			for _, k := range []string{"key", "id", "identifier"} {
+				if v, ok := vals[k]; ok {
+					c.Key = v.(string)
+					consumed[k] = true
+					break
+				}
+			}
+			if v, ok := vals["tags"]; ok {
+				for _, x := range v.([]any) {
+					c.Tags = append(c.Tags, x.(string))
+				}
+				consumed["tags"] = true
+			}
+			if v, ok := vals["count"]; ok {
+				c.Count = v.(int)
+				consumed["count"] = true
+			}
+			return c
+		}
+		leftovers := func(m *ordered.MapSA, consumed map[string]bool) map[string]any {
+			out := map[string]any{}
+			m.Range(func(k string, v any) error {
+				if !consumed[k] {
+					out[k] = v
+				}
+				return nil
+			})
+			return out
+		}
+		sameRest := func(got, want map[string]any) bool {
+			if len(got) != len(want) {
+				return false
+			}
+			for k, w := range want {
+				g, ok := got[k]
+				if !ok || gt.Diff(gt.MustGo(w), gt.MustGo(g), gt.Opt{}) != "" {
+					return false
+				}
+			}
+			return true
+		}
+		differential := func(m *ordered.MapSA, vals map[string]any, into func() any, got any) {
+			if _, a := vals["id"]; a {
+				return
+			}
+			if _, a := vals["identifier"]; a {
+				return
+			}
+			yb, err := yaml.Marshal(m)
+			if err != nil {
+				t.Fatalf("yaml.Marshal: %v", err)
+			}
+			ref := into()
+			if err := yaml.Unmarshal(yb, ref); err != nil {
+				t.Fatalf("yaml.v3 refuses the document: %v\n%s", err, yb)
+			}
+			// compared through their JSON forms (promoted fields included; an ordered map and a plain map
+			// holding the same pairs print the same object; nil and empty collections are not told apart)
+			rj, _ := json.Marshal(ref)
+			gj, _ := json.Marshal(got)
+			rn, _ := gt.FromJSON(rj)
+			gn, _ := gt.FromJSON(gj)
+			fold := func(n *gt.Node) {
+				gt.Walk(n, func(_ string, x *gt.Node) {
+					if x.Kind == gt.Map {
+						for i, v := range x.Vals {
+							if (v.Kind == gt.Seq && len(v.Items) == 0) || (v.Kind == gt.Map && len(v.Keys) == 0) {
+								x.Vals[i] = gt.NullN()
+							}
+						}
+					}
+				})
+			}
+			fold(rn)
+			fold(gn)
+			if d := gt.Diff(gt.Unorder(rn), gt.Unorder(gn), gt.Opt{IgnoreOrder: true}); d != "" {
+				t.Fatalf("ordered.Unmarshal differs from yaml.v3's decoder into %T: %s\nyaml.v3: %s\nordered: %s\n%s", got, d, rj, gj, yb)
+			}
+		}
+		kind := rapid.IntRange(0, 2).Draw(t, "type")
+		var nt bool
+		var show string
+		switch kind {
+		case 0:
+			m, vals := genDoc("a", []string{"name"})
+			var got EmbWithRest
+			if err := ordered.Unmarshal(m, &got); err != nil {
+				t.Fatalf("Unmarshal into %T: %v", got, err)
+			}
+			consumed := map[string]bool{}
+			want := EmbWithRest{embCommon: expectCommon(vals, consumed)}
+			if v, ok := vals["name"]; ok {
+				want.Name = v.(string)
+				consumed["name"] = true
+			}
+			want.Rest = leftovers(m, consumed)
+			if !reflect.DeepEqual(got.embCommon, want.embCommon) || got.Name != want.Name || !sameRest(got.Rest, want.Rest) {
+				t.Fatalf("Unmarshal into EmbWithRest: got %+v, the rule gives %+v\ndocument keys: %v", got, want, vals)
+			}
+			differential(m, vals, func() any { return &EmbWithRest{} }, &got)
+			nt = (got.Key != "" || got.Count != 0) && len(want.Rest) > 0
+			show = fmt.Sprint(vals)
+		case 1:
+			m, vals := genDoc("b", []string{"label"})
+			var got EmbNoRest
+			if err := ordered.Unmarshal(m, &got); err != nil {
+				t.Fatalf("Unmarshal into %T: %v", got, err)
+			}
+			consumed := map[string]bool{}
+			want := EmbNoRest{embCommon: expectCommon(vals, consumed)}
+			if v, ok := vals["label"]; ok {
+				want.Label = v.(string)
+			}
+			if !reflect.DeepEqual(got, want) {
+				t.Fatalf("Unmarshal into EmbNoRest: got %+v, the rule gives %+v\ndocument keys: %v", got, want, vals)
+			}
+			differential(m, vals, func() any { return &EmbNoRest{} }, &got)
+			nt = got.Key != "" && len(vals) > 2
+			show = fmt.Sprint(vals)
+		default:
+			inner, ivals := genDoc("c", []string{"label"})
+			outer := ordered.NewMap[string, any](0)
+			ovals := map[string]any{}
+			if rapid.Bool().Draw(t, "hasouter") {
+				outer.Set("outer", "o")
+				ovals["outer"] = "o"
+			}
+			outer.Set("sub", inner)
+			if rapid.Bool().Draw(t, "hasextra") {
+				outer.Set("extra", "e")
+				ovals["extra"] = "e"
+			}
+			var got EmbNested
+			if err := ordered.Unmarshal(outer, &got); err != nil {
+				t.Fatalf("Unmarshal into %T: %v", got, err)
+			}
+			consumed := map[string]bool{}
+			wantSub := EmbNoRest{embCommon: expectCommon(ivals, consumed)}
+			if v, ok := ivals["label"]; ok {
+				wantSub.Label = v.(string)
+			}
+			if got.Sub == nil || !reflect.DeepEqual(*got.Sub, wantSub) {
+				t.Fatalf("Unmarshal into EmbNested: sub = %+v, the rule gives %+v\ndocument keys: %v", got.Sub, wantSub, ivals)
+			}
+			if _, ok := ovals["outer"]; ok != (got.Outer == "o") {
+				t.Fatalf("Unmarshal into EmbNested: outer = %q", got.Outer)
+			}
+			if _, ok := ovals["extra"]; ok != (got.Rest["extra"] == "e") || len(got.Rest) > 1 {
+				t.Fatalf("Unmarshal into EmbNested: rest = %v", got.Rest)
+			}
+			nt = got.Sub.Key != "" && len(got.Rest) > 0
+			show = fmt.Sprint(ovals, ivals)
+		}
+		recEmb.Case(ev.Hash(kind, show), nt, fmt.Sprintf("type=%d", kind))
+		recEmb.MaybeSample(nt, func() any { return show })
+	})
+}
